@@ -407,6 +407,23 @@ def no_orphan_entry(F, R, ver):
                  'the outstanding entry is queued although the PUBLISH may not have been written', b.loc(bi))
 
 
+def register_before_write(F, R, ver):
+    """SUBSCRIBE / UNSUBSCRIBE: the packet id is checked and the acknowledgement slot registered (wait_response) before
+    the packet is written. Written first, a send that is then refused locally (PacketIdInUse) has already put a packet on
+    the wire whose acknowledgement will meet a wrong or empty queue head and end the connection with a protocol error."""
+    n = 0
+    for b in F.find(r'^%s::sink::(SubscribeBuilder|UnsubscribeBuilder)::send' % ver):
+        regs = {bi for bi, t in b.calls_to(r'^%s::shared::MqttShared::wait_response$' % ver)}
+        encs = [(bi, t) for bi, t in b.calls_to(r'^%s::shared::MqttShared::encode_packet$' % ver)]
+        if not regs and not encs:
+            continue
+        for bi, t in encs:
+            n += 1
+            R.ob('C06.id-discipline', '%s|encode_packet|after-registration' % top_fn(b.path), bool(regs) and b.must_pass(regs, bi),
+                 'the packet is written before its id was checked / its acknowledgement slot registered: a locally refused send (PacketIdInUse) leaves a packet on the wire whose SUBACK/UNSUBACK cannot be matched', b.loc(bi))
+    R.floor('C06.id-discipline', '%s subscribe/unsubscribe wire writes' % ver, n, 1)
+
+
 def no_sticky_state(F, R, ver):
     n = 0
     for b in F.find(r'^%s::shared::MqttShared::' % ver):
@@ -451,5 +468,6 @@ def run(F, R):
         next_id_invariant(F, R, ver)
         error_closes(F, R, ver)
         no_orphan_entry(F, R, ver)
+        register_before_write(F, R, ver)
         no_sticky_state(F, R, ver)
     R.assume('pool::Sender::send / Fn::call are the only ways pkt_ack_inner completes a waiting sender (enumerated from the MIR call list)')
